@@ -82,11 +82,15 @@ def arc_shapes(size, pred=lambda a, b, c, d: True):
     return out
 
 
-add(fam("arc", arc_shapes(1), Q2_KINDS) + ["h_arc::ctor"] +
-    fam("arc", ["s2n2011", "s2n1111", "s2n0211", "s2n1121"], ["look", "put"]) + ["h_arc::s2n2022::put", "h_arc::s2n0222::put"],
+add(fam("arc", arc_shapes(1), ["look", "put"]) + ["h_arc::ctor", "h_arc::s1n1011::bulk", "h_arc::s1n0111::bulk"],
     ARC_STEP, "quick", 3,
-    "AdaptiveCache<u8,u8>: size 1 (all 12 occupancies) and four full-cache occupancies of size 2; p symbolic in "
-    "0..=size (enumerated where it steers control); one operation; keys by pattern enumeration", mem=6, quick_for=["C09"])
+    "AdaptiveCache<u8,u8>: size 1, all 12 occupancies; p symbolic in 0..=size (enumerated where it steers control); "
+    "one operation; keys by pattern enumeration", mem=3, quick_for=["C09"])
+add(fam("arc", ["s2n2011", "s2n1111", "s2n0211"], ["look", "put"]) + ["h_arc::s2n2022::put", "h_arc::s2n1121::put"],
+    ARC_STEP, "quick", 3,
+    "AdaptiveCache<u8,u8>: size 2, full-cache occupancies (2,0,1,1) (1,1,1,1) (0,2,1,1) with look+put, (2,0,2,2) (1,1,2,1) put; "
+    "p enumerated 0..=2", mem=6, quick_for=["C09"])
+add(fam("arc", arc_shapes(1), ["bulk"]), ARC_STEP, "thorough", 3, "AdaptiveCache size 1: purge from all 12 occupancies", mem=3)
 add(fam("arc", arc_shapes(2), Q2_KINDS), ARC_STEP, "thorough", 3,
     "AdaptiveCache<u8,u8>: size 2, all 54 occupancies; one operation; keys by pattern enumeration", mem=8, tmul=2)
 add(fam("arc", ["s1n0000", "s1n1000", "s1n0100", "s1n0010", "s1n0001"], ["symkeys_put", "symkeys_look"]),
@@ -153,11 +157,12 @@ add(["h_ctor::twoq_new", "h_ctor::twoq_with_recent_ratio", "h_ctor::twoq_with_gh
     "TinyLFU::new with a symbolic ratio in [2^-64,1); conversions with N = 3", mem=8, tmul=2)
 
 # ---- clone / callback / PutResult / borrowed keys / ownership / iterators ---------------------------
-add(["h_misc::clone_raw::c2n2", "h_misc::clone_raw::c2n1", "h_misc::clone_raw::c1n0", "h_misc::clone_wt::n100",
-     "h_tlfu::r2l3::clone_step"], ["C16", "C17", "C03"], "quick", 4,
+add(["h_misc::clone_raw::id_c2n2", "h_misc::clone_raw::id_c3n3", "h_misc::clone_raw::c2n1", "h_misc::clone_raw::c1n0",
+     "h_misc::clone_slru_id::c11n11", "h_misc::clone_wt::n100", "h_tlfu::r2l3::clone_step"], ["C16", "C17", "C03"], "quick", 4,
     "clone: RawLRU<u8,u8> cap<=2 (symbolic keys, index iteration order symbolic), WTinyLFUCache (1,1,1) with a symbolic "
     "estimator, TinyLFU arbitrary state; lock-step operation on both, independence, drop of the original", mem=8)
-add(["h_misc::clone_raw::c3n2", "h_misc::clone_wt::n111"], ["C16", "C17", "C03"], "thorough", 4,
+add(["h_misc::clone_raw::c2n2", "h_misc::clone_raw::c3n2", "h_misc::clone_raw::id_c3n2", "h_misc::clone_wt::n111",
+     "h_misc::clone_slru_id::c22n22"], ["C16", "C17", "C03"], "thorough", 4,
     "clone: RawLRU cap 3 with 2 entries, WTinyLFUCache (1,1,1) all lists occupied", mem=10, tmul=2)
 add(["h_misc::cb::c1n1", "h_misc::cb::c2n1", "h_misc::cb::c2n2"], ["C15"], "quick", 4,
     "RawLRU<u8,u8> with a logging callback (both callback constructors), cap <= 2, every occupancy incl. full; one operation of "
